@@ -183,9 +183,9 @@ def envPairs (s : String) : List (String × String) :=
 def showUnit (settings : List (String × Val)) (items : List Item) : String :=
   let program := match settings.lookup "program" with | some v => asWord Gen.Upgrade.evmDisplay v | none => ""
   let envs := match settings.lookup "environment" with
-    | some (.opt (some e)) => (envPairs e.show).map fun kv => esc (environmentLine kv.1 kv.2)
+    | some (.opt (some e)) => (envPairs e.show).map fun kv => esc (unitEnvironmentLine kv.1 kv.2)
     | _ => []
-  "X: " ++ esc ("ExecStart=" ++ execStartValue program (argv items)) ++ " E: " ++
+  "X: " ++ esc (unitExecStartLine program (argv items)) ++ " E: " ++
     (if envs.isEmpty then "-" else ",".intercalate envs)
 
 /-- the daemon's restart of the started service: `R: ..` (and `RU: ..`, the replacement's own next upgrade) -/
